@@ -90,6 +90,27 @@ Theorem C07_wma_drift_refuted :
     end.
 Proof. eexists. split; [reflexivity|]. vm_compute. split; reflexivity. Qed.
 
+(** The same defect in LinReg (its [s_xy] adds the running [s_y] on every step) and in SWMA of odd length: on the same inputs the
+    outputs grow without bound on constant input (found by the thorough tier's 10^7-step soak) *)
+Theorem C07_linreg_drift_refuted :
+  exists s0, linreg_new (pw := PW8) (N := NumF64) 2 1%float = Ok s0 /\
+    let outs := snd (fold_left (fun st x => let '(s, y) := linreg_next (pw := PW8) (N := NumF64) (fst st) x in (s, y :: snd st))
+                       ([100000000000000000; 12345678901234568; 12345678901234568]%float ++ repeat 1%float 30) (s0, [])) in
+    match outs with
+    | y2 :: y1 :: _ => PrimFloat.ltb 100 y2 = true /\ PrimFloat.ltb (y1 + 5) y2 = true
+    | _ => False
+    end.
+Proof. eexists. split; [reflexivity|]. vm_compute. split; reflexivity. Qed.
+Theorem C07_swma_drift_refuted :
+  exists s0, swma_new (pw := PW8) (N := NumF64) 3 1%float = Ok s0 /\
+    let outs := snd (fold_left (fun st x => let '(s, y) := swma_next (pw := PW8) (N := NumF64) (fst st) x in (s, y :: snd st))
+                       ([100000000000000000; 12345678901234568; 12345678901234568]%float ++ repeat 1%float 60) (s0, [])) in
+    match outs with
+    | y2 :: y1 :: _ => PrimFloat.ltb 100 y2 = true /\ PrimFloat.ltb (y1 + 2) y2 = true
+    | _ => False
+    end.
+Proof. eexists. split; [reflexivity|]. vm_compute. split; reflexivity. Qed.
+
 (** (5) integer counters kept by indicators: AwesomeOscillator's 8-bit saturating peak counters are unobservable - an instance
     with unbounded counters returns the same results on every stream, of every length, on every carrier *)
 From Yata Require Import Core.Strings Indicators.Common Indicators.Set4 Proofs.AoCounters.
@@ -97,3 +118,71 @@ Theorem C07_awesome_oscillator_counters {pw : PW} {N : Num} (s0 : ao_st) cs :
   (oc_peaks (ao_cfg_ s0) <= 255)%Z -> (0 <= ao_high s0 <= 255)%Z -> (0 <= ao_low s0 <= 255)%Z ->
   run ao_next s0 cs = run ao_next_unb s0 cs.
 Proof. exact (ao_saturation_unobservable s0 cs). Qed.
+
+(** (6) the rounding link itself, proved for the running sum (cumulative Integral): on binary64 - Flocq's correctness of IEEE
+    addition through the PrimFloat bridge - the model's output after n finite inputs, none of whose partial sums overflows, is
+    within 2^-53 * n * M of the exact sum of the same inputs (M bounds the magnitudes of the partial sums): the error grows at
+    most linearly with the length of the stream, the shape of the allowance A(t) used by the checks.  [sum_okb] decides the
+    hypothesis by computation. *)
+From Yata Require Import Proofs.RoundingLink.
+From Coq Require Import Reals List.
+Theorem C07_cumulative_sum_rounding_link (xs : list PrimFloat.float) (x : PrimFloat.float) (M : R) :
+  let l := rev (xs ++ [x]) in
+  sum_ok l -> (forall y r, (exists p, l = p ++ y :: r) -> (Rabs (val (@cumsum NumF64 r) + val y) <= M)%R) ->
+  exists s0, integral_new (pw := PW8) (N := NumF64) 0 1%float = Ok s0 /\
+    (Rabs (val (snd (integral_next (pw := PW8) (steps (integral_next (pw := PW8)) s0 xs) x)) - @cumsum NumR (map val l))
+     <= u64 * (INR (length l) * M))%R.
+Proof. exact (integral0_f64_accuracy xs x M). Qed.
+Theorem C07_binary64_addition_error (x y : PrimFloat.float) : fin x -> fin y -> fin (x + y)%float ->
+  exists eps, (Rabs eps <= u64)%R /\ val (x + y)%float = ((val x + val y) * (1 + eps))%R.
+Proof. intros Fx Fy Fs. exact (proj2 (f64_add_error x y Fx Fy (finite_sum_no_overflow x y Fx Fy Fs))). Qed.
+(** the sliding sum  s' = (s + x) - old  of the windowed methods (Integral(n), and the running sums of SMA, WMA, StDev, CMO, MFI,
+    ...): two roundings per step; the binary64 value stays within 2^-53 times the magnitudes of ALL additions and subtractions
+    performed so far of the exact recurrence (which is the exact window sum, C02) - a bound that grows with the stream and does not
+    shrink when large values leave the window: the proved counterpart of the residue findings *)
+Theorem C07_sliding_sum_rounding_link (s0 : PrimFloat.float) (l : list (PrimFloat.float * PrimFloat.float)) : slide_ok s0 l ->
+  fin (slide_f s0 l) /\
+  (Rabs (val (slide_f s0 l) - slide_r (val s0) (map (fun p => (val (fst p), val (snd p))) l)) <= u64 * slide_scale s0 l)%R.
+Proof. exact (sliding_sum_rounding_link s0 l). Qed.
+(** (7) the exponential average does NOT lose accuracy with the length of the stream: the binary64 recurrence
+    y' = fma (x - y) alpha y  of the model (Flocq's verified fma: the term that is run against the implementation) stays within
+    (7 * 2^-53 * m + 2^-1075) / alpha of the exact recurrence on the same inputs after ANY number of steps, m a bound on the
+    magnitudes of inputs and states - a bound without the stream length in it (the factor (1 - alpha) contracts the rounding error
+    of every earlier step).  The hypothesis [ema_boundb] (finite inputs and states within m: nothing overflows) is decided by
+    computation on a concrete stream. *)
+From Yata Require Import Proofs.RoundingLinkEma.
+Theorem C07_ema_error_independent_of_length (a y0 m : PrimFloat.float) (xs : list PrimFloat.float) :
+  fin a -> fin y0 -> fin m -> (0 < val a <= 1)%R -> ema_boundb a y0 m (rev xs) = true ->
+  (Rabs (val (ema_value (steps (ema_next (N := NumF64)) (mkEMA a y0) xs))
+        - ema_value (steps (ema_next (N := NumR)) (@mkEMA NumR (val a) (val y0)) (map val xs)))
+   <= (7 * u64 * val m + eta64) / val a)%R.
+Proof. exact (ema_model_accuracy a y0 m xs). Qed.
+Theorem C07_binary64_fma_error (x y z : PrimFloat.float) : fin x -> fin y -> fin z -> fin (f64_fma x y z) ->
+  exists eps eta, (Rabs eps <= u64)%R /\ (Rabs eta <= eta64)%R /\ val (f64_fma x y z) = ((val x * val y + val z) * (1 + eps) + eta)%R.
+Proof. intros Fx Fy Fz Fs. exact (proj2 (f64_fma_error x y z Fx Fy Fz (finite_fma_no_overflow x y z Fx Fy Fz Fs))). Qed.
+(** ... and so do the cascades DMA (EMA of EMA) and TMA (EMA of EMA of EMA): 2x and 3x the same bound, for every stream length *)
+From Yata Require Import Proofs.RoundingLinkDma.
+Theorem C07_dma_error_independent_of_length (a y0 m : PrimFloat.float) (xs : list PrimFloat.float) :
+  fin a -> fin y0 -> fin m -> (0 < val a <= 1)%R ->
+  ema_boundb a y0 m (rev xs) = true -> ema_boundb a y0 m (emaF_outs a y0 (rev xs)) = true ->
+  (Rabs (val (dma_peek (steps (dma_next (N := NumF64)) (mkDMA (mkEMA a y0) (mkEMA a y0)) xs))
+        - dma_peek (steps (dma_next (N := NumR)) (mkDMA (@mkEMA NumR (val a) (val y0)) (@mkEMA NumR (val a) (val y0))) (map val xs)))
+   <= 2 * ((7 * u64 * val m + eta64) / val a))%R.
+Proof. exact (dma_model_accuracy a y0 m xs). Qed.
+Theorem C07_tma_error_independent_of_length (a y0 m : PrimFloat.float) (xs : list PrimFloat.float) :
+  fin a -> fin y0 -> fin m -> (0 < val a <= 1)%R ->
+  ema_boundb a y0 m (rev xs) = true -> ema_boundb a y0 m (emaF_outs a y0 (rev xs)) = true ->
+  ema_boundb a y0 m (emaF_outs a y0 (emaF_outs a y0 (rev xs))) = true ->
+  (Rabs (val (tma_peek (steps (tma_next (N := NumF64)) (mkTMA (mkDMA (mkEMA a y0) (mkEMA a y0)) (mkEMA a y0)) xs))
+        - tma_peek (steps (tma_next (N := NumR))
+            (mkTMA (mkDMA (@mkEMA NumR (val a) (val y0)) (@mkEMA NumR (val a) (val y0))) (@mkEMA NumR (val a) (val y0))) (map val xs)))
+   <= 3 * ((7 * u64 * val m + eta64) / val a))%R.
+Proof. exact (tma_model_accuracy a y0 m xs). Qed.
+(** ... and RMA (y' = fma alpha x (alpha_rev * y)): within (2^-53 * (4m + 2^-1075) + 2^-1074) / (1 - alpha_rev) for every stream length *)
+From Yata Require Import Proofs.RoundingLinkRma.
+Theorem C07_rma_error_independent_of_length (a b y0 m : PrimFloat.float) (xs : list PrimFloat.float) :
+  fin a -> fin b -> fin y0 -> fin m -> (0 <= val a <= 1)%R -> (0 <= val b < 1)%R -> rma_boundb a b y0 m (rev xs) = true ->
+  (Rabs (val (rma_peek (steps (rma_next (N := NumF64)) (mkRMA a b y0) xs))
+        - rma_peek (steps (rma_next (N := NumR)) (@mkRMA NumR (val a) (val b) (val y0)) (map val xs)))
+   <= (u64 * (4 * val m + eta64) + 2 * eta64) / (1 - val b))%R.
+Proof. exact (rma_model_accuracy a b y0 m xs). Qed.
